@@ -41,6 +41,7 @@ var classOwners = map[string][]string{
 	"ACCESS_AFTER_FREE": {"C09", "C14"},
 	"GUARD_PAGE":        {"C09", "C14"},
 	"COTENANT_DAMAGED":  {"C09", "C14"},
+	"SOLO_FAILURE":      {"none"},
 	"CALLER_MODIFIED":   {"C09"},
 	"RETAINED_CHANGED":  {"C09"},
 	// cursor-model classes of the buffered reader
@@ -85,7 +86,7 @@ type Ctx struct {
 
 	Alloc       AllocCfg
 	allocStream *Stream
-	steps  []int64
+	steps       []int64
 }
 
 func newCtx(prop string, seed int64, idx int, tier string, tape *Tape) *Ctx {
@@ -99,7 +100,11 @@ func newCtx(prop string, seed int64, idx int, tier string, tape *Tape) *Ctx {
 // sub creates the child context of a task: own counters, hash, trace and tape streams, so
 // that concurrently running tasks share no harness state (race-detector hygiene).
 func (c *Ctx) sub(name string, id int) *Ctx {
-	ch := &Ctx{Prop: c.Prop, Seed: c.Seed, Index: c.Index, Tier: c.Tier, Tape: c.Tape.Sub(fmt.Sprintf("t%d/", id)),
+	return c.subTape(name, id, c.Tape.Sub(fmt.Sprintf("t%d/", id)))
+}
+
+func (c *Ctx) subTape(name string, id int, tape *Tape) *Ctx {
+	ch := &Ctx{Prop: c.Prop, Seed: c.Seed, Index: c.Index, Tier: c.Tier, Tape: tape,
 		Counters: map[string]int64{}, absCap: 1024, Tracing: c.Tracing, SampleWanted: c.SampleWanted, Sched: c.Sched, TaskID: id}
 	ch.Cfg = ch.Tape.S("cfg")
 	ch.hash = mix64(uint64(id) + 77)
